@@ -373,3 +373,84 @@ Definition f32_to_Q (b : N) : option Q :=
       else if (150 <=? e)%N then Qmake (Z.of_N ((8388608 + m) * 2 ^ (e - 150))) 1
       else Qmake (Z.of_N (8388608 + m)) (2 ^ N.succ_pos (149 - e))%positive in
     Some (if s then Qopp mag else mag).
+
+(* ------------------------------------------------------------------ *)
+(* product quantiser: shard/vectorstore/product.go
+   Every number below is an exact value in units of 2^-149 (the smallest float32
+   denormal), so every finite float32 is an integer and all arithmetic is exact in Z;
+   distances are then in units of 2^-298.
+   metric: 0 euclidean, 1 dot, 2 cosine (newProductQuantizer maps cosine to euclidean).
+   Layout: flat centroids (sub-vector i, centroid j) at [(i*k + j)*sl, +sl), the table
+   entry (i, j, j') at (i*k + j)*k + j'. *)
+
+Definition f32_to_u (b : N) : option Z :=
+  let s := N.testbit b 31 in
+  let e := ((b / 8388608) mod 256)%N in
+  let m := (b mod 8388608)%N in
+  if (e =? 255)%N then None
+  else
+    let mag := if (e =? 0)%N then Z.of_N m else Z.of_N (N.shiftl (8388608 + m) (e - 1)) in
+    Some (if s then - mag else mag).
+Fixpoint f32s_to_u (bs : list N) : option (list Z) :=
+  match bs with
+  | [] => Some []
+  | b :: r => match f32_to_u b, f32s_to_u r with Some z, Some zs => Some (z :: zs) | _, _ => None end
+  end.
+Definition u_unit : Z := Eval vm_compute in 2 ^ 149.
+
+Fixpoint dot_abs (xs ys : list Z) : Z :=
+  match xs, ys with x :: xs', y :: ys' => Z.abs (x * y) + dot_abs xs' ys' | _, _ => 0 end.
+Definition pq_dfn (metric : N) (xs ys : list Z) : Z := if (metric =? 1)%N then negdot xs ys else sqeuclid xs ys.
+(* sum of the magnitudes of the terms: the scale of the float32 rounding error *)
+Definition pq_dabs (metric : N) (xs ys : list Z) : Z := if (metric =? 1)%N then dot_abs xs ys else sqeuclid xs ys.
+
+Definition pq_centroid (sl k : nat) (cents : list Z) (i j : nat) : list Z :=
+  firstn sl (skipn ((i * k + j) * sl) cents).
+Definition pq_subvec (sl : nat) (v : list Z) (i : nat) : list Z := firstn sl (skipn (i * sl) v).
+
+(* sum over the sub-vectors i = i0, i0+1, ... of f i (code of x in i) (code of y in i) *)
+Fixpoint pq_sum (f : nat -> nat -> nat -> Z) (i : nat) (ca cb : list nat) : Z :=
+  match ca, cb with a :: ca', b :: cb' => f i a b + pq_sum f (S i) ca' cb' | _, _ => 0 end.
+(* DistanceFromPoint: sum_i distFn(centroid_i(code_a i), centroid_i(code_b i)) *)
+Definition pq_point_dist (metric : N) (sl k : nat) (cents : list Z) (ca cb : list nat) : Z :=
+  pq_sum (fun i a b => pq_dfn metric (pq_centroid sl k cents i a) (pq_centroid sl k cents i b)) 0 ca cb.
+Definition pq_point_abs (metric : N) (sl k : nat) (cents : list Z) (ca cb : list nat) : Z :=
+  pq_sum (fun i a b => pq_dabs metric (pq_centroid sl k cents i a) (pq_centroid sl k cents i b)) 0 ca cb.
+(* DistanceFromFloat: sum_i distFn(q_i, centroid_i(code_b i)) *)
+Fixpoint pq_qsum (f : nat -> nat -> Z) (i : nat) (cb : list nat) : Z :=
+  match cb with b :: cb' => f i b + pq_qsum f (S i) cb' | [] => 0 end.
+Definition pq_query_dist (metric : N) (sl k : nat) (cents q : list Z) (cb : list nat) : Z :=
+  pq_qsum (fun i b => pq_dfn metric (pq_subvec sl q i) (pq_centroid sl k cents i b)) 0 cb.
+Definition pq_query_abs (metric : N) (sl k : nat) (cents q : list Z) (cb : list nat) : Z :=
+  pq_qsum (fun i b => pq_dabs metric (pq_subvec sl q i) (pq_centroid sl k cents i b)) 0 cb.
+
+(* |got - want| <= tol, all in units of 2^-298 *)
+Definition close_to (tol got want : Z) : bool := Z.abs (got - want) <=? tol.
+(* float32 rounding allowance: 2^-18 of the sum of the magnitudes of the terms (at most 16
+   coordinates and 4 sub-vectors: fewer than 32 roundings of relative size 2^-24 each);
+   nothing when the data is on the exact grid *)
+Definition pq_tol (exact : bool) (abs_terms : Z) : Z := if exact then 0 else abs_terms / 262144 + 1.
+(* multiples of 1/8 of magnitude at most 16: with at most 16 coordinates every product,
+   difference, square and partial sum is a multiple of 2^-6 below 2^18, exact in float32 *)
+Definition grid_mask : Z := Eval vm_compute in 2 ^ 146 - 1.
+Definition grid_max : Z := Eval vm_compute in 16 * 2 ^ 149.
+Definition on_grid (z : Z) : bool := (Z.land z grid_mask =? 0) && (Z.abs z <=? grid_max).
+
+(* the centroid chosen for sub-vector i is a minimiser of distFn(sub-vector, centroid), up to tol *)
+Definition pq_is_argmin (metric : N) (exact : bool) (sl k : nat) (cents : list Z) (s : list Z) (i c : nat) : bool :=
+  let dc := pq_dfn metric s (pq_centroid sl k cents i c) in
+  let ac := pq_dabs metric s (pq_centroid sl k cents i c) in
+  forallb (fun j => let cj := pq_centroid sl k cents i j in
+                    dc <=? pq_dfn metric s cj + pq_tol exact (ac + pq_dabs metric s cj)) (seq 0 k).
+Fixpoint pq_codes_argmin (metric : N) (exact : bool) (sl k : nat) (cents v : list Z) (i : nat) (code : list nat) : bool :=
+  match code with
+  | [] => true
+  | c :: r => pq_is_argmin metric exact sl k cents (pq_subvec sl v i) i c && pq_codes_argmin metric exact sl k cents v (S i) r
+  end.
+
+(* every table entry (i, j, j') is distFn(centroid_i j, centroid_i j'), the diagonal included *)
+Definition pq_table_ok (metric : N) (exact : bool) (m k sl : nat) (cents table : list Z) : bool :=
+  forallb (fun i => forallb (fun j => forallb (fun j' =>
+    let cj := pq_centroid sl k cents i j in let cj' := pq_centroid sl k cents i j' in
+    close_to (pq_tol exact (pq_dabs metric cj cj')) (nth ((i * k + j) * k + j') table 0 * u_unit) (pq_dfn metric cj cj'))
+    (seq 0 k)) (seq 0 k)) (seq 0 m).
